@@ -257,7 +257,7 @@ def expectation(doc, ep, vec):
             exp["body_json"] = [x[1] for x in bv[1]]
         if ct.startswith("multipart/") and bv[0] == "model":
             fields = {}
-            declared = {"title", "count", "flag", "when", "kind", "tags", "meta", "ratio", "ref_or_text", "maybe_note", "stamp", "uid", "lvl", "attachment"}
+            declared = {"title", "count", "flag", "when", "kind", "tags", "meta", "ratio", "ref_or_text", "maybe_note", "stamp", "uid", "lvl", "attachment", "form_kind", "form_version"}
             for k, v in bv[2].items():
                 if isinstance(v, (dict, list)):
                     if k in declared:
